@@ -67,7 +67,10 @@ Theorem C01_refuted_json_array_pinned :
   let v := VList [VList [VInt 5; VInt 6]] in
   wf_schema s = true /\ has_type s v = true /\
   exists j, jencode s v = Ok j /\ jdecode false s j = Panic.
-Proof. vm_compute. repeat split. eexists. split; reflexivity. Qed.
+Proof.
+  cbv zeta. split; [vm_compute; reflexivity|]. split; [vm_compute; reflexivity|].
+  exists (JObj [("aI", JArr [JNum 5; JNum 6])]%string). split; vm_compute; reflexivity.
+Qed.
 
 Print Assumptions C01_json_roundtrip.
 Print Assumptions C01_json_roundtrip_top.
